@@ -23,18 +23,20 @@ import (
 
 // RInput is one compressed input for a package-level Reader.
 type RInput struct {
-	Stream  StreamSpec  `json:"stream"`             // the DEFLATE body
-	Hdr     *GzHdr      `json:"hdr,omitempty"`      // gzip: header fields
-	Dict    *gen.Recipe `json:"dict,omitempty"`     // zlib: dictionary the stream was written with (FDICT set when non-nil)
-	RDict   *gen.Recipe `json:"rdict,omitempty"`    // zlib: dictionary handed to the reader (may differ / be nil)
-	BadSum  bool        `json:"badsum,omitempty"`   // corrupt the trailer checksum
-	CutTail int         `json:"cut_tail,omitempty"` // drop this many bytes from the end of the container
+	Stream  StreamSpec   `json:"stream"`             // the DEFLATE body
+	Hdr     *GzHdr       `json:"hdr,omitempty"`      // gzip: header fields
+	Dict    *gen.Recipe  `json:"dict,omitempty"`     // zlib: dictionary the stream was written with (FDICT set when non-nil)
+	RDict   *gen.Recipe  `json:"rdict,omitempty"`    // zlib: dictionary handed to the reader (may differ / be nil)
+	More    []StreamSpec `json:"more,omitempty"`     // gzip: further members appended after this one
+	BadSum  bool         `json:"badsum,omitempty"`   // corrupt the trailer checksum
+	CutTail int          `json:"cut_tail,omitempty"` // drop this many bytes from the end of the container
 }
 
 type RUse struct {
-	In   RInput `json:"in"`
-	Plan string `json:"plan"` // none | partial | full
-	K    int    `json:"k,omitempty"`
+	In     RInput `json:"in"`
+	Plan   string `json:"plan"` // none | partial | full
+	K      int    `json:"k,omitempty"`
+	Single bool   `json:"single,omitempty"` // gzip: Multistream(false) was called during this use
 }
 
 type C13Case struct {
@@ -73,6 +75,13 @@ func buildContainer(pkg string, in RInput) ([]byte, error) {
 			h = &GzHdr{}
 		}
 		out = gzipWrap(body, expected, known, h)
+		for _, ms := range in.More {
+			b2, e2, k2, err := ms.Build()
+			if err != nil {
+				return nil, err
+			}
+			out = append(out, gzipWrap(b2, e2, k2, &GzHdr{})...)
+		}
 	case "zlib":
 		if in.Dict != nil {
 			// write with the standard library so that matches may reach into the dictionary
@@ -245,10 +254,34 @@ func drawC13(t *rapid.T) C13Case {
 	for i := 0; i < n; i++ {
 		u := RUse{In: drawRInput(t, c.Pkg, true)}
 		u.Plan = rapid.SampledFrom([]string{"none", "partial", "partial", "partial", "full"}).Draw(t, "plan")
+		if c.Pkg == "gzip" {
+			u.Single = rapid.IntRange(0, 2).Draw(t, "single") == 0
+		}
 		u.K = rapid.SampledFrom([]int{1, 2, 10, 100, 1000, 5000, 40000}).Draw(t, "k")
 		c.Before = append(c.Before, u)
 	}
 	c.Next = drawRInput(t, c.Pkg, true)
+	if c.Pkg == "gzip" && rapid.IntRange(0, 2).Draw(t, "moremembers") == 0 {
+		for i := 0; i < rapid.IntRange(1, 2).Draw(t, "nmore"); i++ {
+			c.Next.More = append(c.Next.More, drawValidStream(t, 4<<10))
+		}
+	}
+	if c.Pkg == "flate" && rapid.IntRange(0, 5).Draw(t, "sandwich") == 0 {
+		// table-poisoning sandwich: a fixed-Huffman stream, then a dynamic header that is rejected late
+		// (after the distance table has been rebuilt), then a fixed-Huffman stream with matches
+		fixed := func(seed uint64) RInput {
+			return RInput{Stream: StreamSpec{Kind: "synth", Synth: &synth.Stream{Blocks: []synth.BlockSpec{{Type: 1, N: rapid.IntRange(20, 400).Draw(t, "fixn"), Seed: seed, Alpha: 4, MatchPct: 60, DistMode: rapid.IntRange(0, 5).Draw(t, "fixdm")}}}}}
+		}
+		bad := drawSynth(t)
+		bad.Blocks = bad.Blocks[:1]
+		bad.Blocks[0].Type = 2
+		bad.Blocks[0].ExtraDist = 30
+		bad.Blocks[0].DistCode = 2
+		bad.Fault = &synth.Fault{Kind: rapid.SampledFrom([]string{synth.FOverLit, synth.FOverLit, synth.FMissingEOB, synth.FIncompleteLit}).Draw(t, "latefault"), Block: 0, At: 0, Arg: rapid.IntRange(0, 3).Draw(t, "farg")}
+		bad.Tail = 40
+		c.Before = []RUse{{In: fixed(1), Plan: "full"}, {In: RInput{Stream: StreamSpec{Kind: "synth", Synth: bad}}, Plan: "full"}}
+		c.Next = fixed(2)
+	}
 	c.Reads = drawReadSizes(t)
 	c.Chunks, _ = drawChunks(t)
 	return c
@@ -267,6 +300,10 @@ func checkC13(c C13Case) (labels []string, nontrivial bool, err error) {
 		if r == nil {
 			labels = append(labels, "before:open-failed")
 			continue
+		}
+		if u.Single && used.gz != nil {
+			used.gz.Multistream(false)
+			labels = append(labels, "before:multistream-false")
 		}
 		switch u.Plan {
 		case "partial":
